@@ -7,6 +7,11 @@
     replayed through the stream under every chunking (write_all and write per chunk).
  B  grammar texts x seeded chunkings x op mixes (write, write_vectored, write_all, write!) against a recording
     console, and against consoles that accept short counts or fail; every call validated by Trace_WinconStream.
+ S2 MC_WinconStream: the stream's algorithm over an unreliable console as a state machine (Offer / Finish; console answers
+    all / one byte / Ok(0) / Interrupted / Other): the observational judge accepts every behaviour (DesignOk), on Ok the console
+    accepted exactly the runs' text (Exact), an error leaves a prefix (ErrPrefix), every call returns (Termination under WF);
+    every behaviour (text with an earlier call, entry point, console script) is replayed on the real stream and judged by
+    Trace_WinconStream like any recorded call.
 """
 import json, os, subprocess
 import vlib
@@ -69,6 +74,7 @@ def run(chk):
             chk.traces += s["cases"]
             chk.part("A_console_enum", sequences=s["cases"], chunked_runs=s["runs"], exhaustive=True)
     jobs = []
+    design_part(chk, vw, wd, quick, jobs)
     shards = 8 if quick else 40
     for s in range(shards):
         p = os.path.join(wd, "lc-%d.ndjson" % s)
@@ -104,6 +110,40 @@ def run(chk):
     std_lock_part(chk, vw, flags)
     chk.sample({"call": json.loads(open(jobs[0][0]).readline())})
     chk.exhaustive = False
+
+
+def design_part(chk, vw, wd, quick, jobs):
+    """S: the stream's algorithm over an unreliable console as a state machine (MC_WinconStream): DesignOk (the observational
+    judge accepts every behaviour), Exact, ErrPrefix, and Termination under fairness; every behaviour is then replayed on the
+    real stream (script-replay) and the recorded calls join the traces judged by Trace_WinconStream."""
+    consts = {"MaxScript": 3 if quick else 5, "MaxFaults": 2 if quick else 3, "AllTexts": not quick}
+    cfg = mk_cfg("spec/mc/MC_WinconStream.cfg", os.path.join(wd, "ws.cfg"), consts)
+    path = os.path.join(wd, "behaviours.ndjson")
+    rets = {}
+    n = [0]
+    with open(path, "w") as f:
+        def sink(o):
+            f.write(json.dumps(o, separators=(",", ":")) + "\n")
+            n[0] += 1
+            rets[o["ret"][0]] = rets.get(o["ret"][0], 0) + 1
+        r = vlib.tlc_run("spec/mc/MC_WinconStream.tla", cfg, "c18-design", workers=4, payload_sink=sink, timeout=3000)
+    if not r.ok:
+        raise vlib.ToolError("MC_WinconStream failed (%s):\n%s" % (r.violated, vlib.tlc_counterexample(r)))
+    chk.add_tlc(r, "S_stream_design")
+    # non-vacuity: every way a call can end occurs among the behaviours
+    for k in ("ok", "eZ", "eI", "eO"):
+        if not rets.get(k):
+            raise vlib.ToolError("MC_WinconStream: no behaviour ends with %s (vacuous model)" % k)
+    lcfg = mk_cfg("spec/mc/MC_WinconStreamLive.cfg", os.path.join(wd, "wsl.cfg"), consts)
+    rl = vlib.tlc_run("spec/mc/MC_WinconStream.tla", lcfg, "c18-design-live", workers=4, timeout=3000)
+    if not rl.ok:
+        raise vlib.ToolError("MC_WinconStream liveness failed (%s):\n%s" % (rl.violated, vlib.tlc_counterexample(rl)))
+    chk.add_tlc(rl, "S_stream_design_termination")
+    out = os.path.join(wd, "lc-design.ndjson")
+    summ = json.loads(run_vw(vw, ["script-replay", path, out]).strip().split("\n")[-1])["summary"]
+    jobs.append((out, {"events": summ["events"], "runs": summ["cases"]}))
+    chk.part("S_stream_design", behaviours=n[0], endings=rets, constants=consts, exhaustive=True,
+             properties=["DesignOk", "Exact", "ErrPrefix", "Termination (WF)"], replayed_calls=summ["events"])
 
 
 STD_LOCK_CASES = [
